@@ -302,6 +302,10 @@ fn g_quoted_name() -> BS<String> {
             .prop_map(|s| if s.is_empty() { "kebab-name".to_string() } else { s }),
         // a quoted symbol is a symbol whatever its name
         1 => proptest::sample::select(vec!["t", "f", "nil", "true", "false", "quote", "unquote"]).prop_map(|s| s.to_string()),
+        // names whose length in bytes and in characters differ, and anything else a string literal can hold
+        // names whose length in bytes and in characters differ (letters only, so
+        // that the equivalent text is an identifier for the reader too)
+        3 => proptest::sample::select(vec!["größe", "λ", "日本語", "é", "naïve-name", "ÅÄÖ", "ß", "straße-name", "x日本", "ключ", "aé", "éa", "λλλλλλλλ"]).prop_map(|s| s.to_string()),
     ]
     .boxed()
 }
